@@ -10,6 +10,7 @@ import (
 	"regexp"
 	"strings"
 	"sync"
+	"syscall"
 	"time"
 )
 
@@ -61,6 +62,10 @@ var fileCtr int
 var fileMu sync.Mutex
 
 func runSolver(sp solverSpec, query string, timeoutMs int) solveResult {
+	return runSolverCtx(context.Background(), sp, query, timeoutMs)
+}
+
+func runSolverCtx(parent context.Context, sp solverSpec, query string, timeoutMs int) solveResult {
 	fileMu.Lock()
 	fileCtr++
 	fn := filepath.Join(scratch(), fmt.Sprintf("q%d.smt2", fileCtr))
@@ -80,10 +85,12 @@ func runSolver(sp solverSpec, query string, timeoutMs int) solveResult {
 		os.WriteFile(filepath.Join(dumpQueries, filepath.Base(fn)), []byte(q), 0o644)
 	}
 	defer os.Remove(fn)
-	ctx, cancel := context.WithTimeout(context.Background(), time.Duration(timeoutMs+2000)*time.Millisecond)
+	ctx, cancel := context.WithTimeout(parent, time.Duration(timeoutMs+3000)*time.Millisecond)
 	defer cancel()
 	a := sp.args(fn, timeoutMs)
 	cmd := exec.CommandContext(ctx, a[0], a[1:]...)
+	// the solver must not outlive this process
+	cmd.SysProcAttr = &syscall.SysProcAttr{Pdeathsig: syscall.SIGKILL}
 	var out bytes.Buffer
 	cmd.Stdout = &out
 	cmd.Stderr = &out
@@ -114,9 +121,11 @@ func solvePortfolio(query string, timeoutMs int) solveResult {
 		return r
 	}
 	ch := make(chan solveResult, 3)
+	ctx, cancel := context.WithCancel(context.Background())
+	defer cancel() // stops the solvers still running once one has answered
 	for _, sp := range []solverSpec{solvers[1], solvers[2], solvers[0]} {
 		sp := sp
-		go func() { ch <- runSolver(sp, query, timeoutMs) }()
+		go func() { ch <- runSolverCtx(ctx, sp, query, timeoutMs) }()
 	}
 	var last solveResult
 	total := r.millis
@@ -246,6 +255,34 @@ func solveAll(ex *Exec, obls []*Obligation, timeoutMs int, wantModel bool, worke
 	}
 	close(ch)
 	wg.Wait()
+	// second chance: an obligation left undecided under full parallel load is retried
+	// with little concurrency and three times the budget (a timeout under load is not a
+	// verdict)
+	var retry []job
+	for _, j := range jobs {
+		if j.o.Status == "unknown" && wantModel {
+			retry = append(retry, j)
+		}
+	}
+	if len(retry) > 0 && len(retry) <= 12 {
+		ch2 := make(chan job)
+		var wg2 sync.WaitGroup
+		for i := 0; i < 2; i++ {
+			wg2.Add(1)
+			go func() {
+				defer wg2.Done()
+				for j := range ch2 {
+					j.o.Status, j.o.Raw = "", ""
+					solveRendered(j.o, j.qs, timeoutMs*3)
+				}
+			}()
+		}
+		for _, j := range retry {
+			ch2 <- j
+		}
+		close(ch2)
+		wg2.Wait()
+	}
 }
 
 // relevantHyps drops quantified hypotheses whose trigger symbols (functions applied
